@@ -75,7 +75,7 @@ SCALAR_FIELDS = {"name", "parameter", "is_variational", "width", "size", "n_shot
                  "qubit_mapping", "up_then_down", "mapping", "n_var_params", "dtype", "ndim", "real_scalar",
                  "freq_threshold", "statevector_order", "n_terms", "constant", "n_active_ab_electrons",
                  "active_spin", "n_spinorbitals", "uhf", "q", "mf_energy", "n_mos", "n_sos", "basis", "charge"}
-SCALAR_ELEMENT_FIELDS = {"target", "control", "_qubit_indices", "shape", "qubit_indices"}
+SCALAR_ELEMENT_FIELDS = {"target", "control", "_qubit_indices", "shape", "qubit_indices", "terms"}
 # repo constructors whose result shares no mutable state with the arguments (each is established by the
 # K1.ctor obligations of C11: Gate copies target/control into new lists; Circuit.add_gate stores a new Gate)
 GATE_FQ = "tangelo.linq.gate.Gate"
@@ -142,7 +142,7 @@ class Event:
 @dataclass
 class Summary:
     func: FunctionInfo
-    mutations: List[Tuple[str, Tuple[str, ...], str, Tuple[str, ...]]] = field(default_factory=list)  # (param, path, descr, chain)
+    mutations: List[Tuple] = field(default_factory=list)  # (param, object path, kind, written field, chain)
     returns: Set[Obj] = field(default_factory=set)         # P-objects that may be returned directly
     returns_holding: Set[Obj] = field(default_factory=set)  # P-objects reachable from a fresh returned object
     returns_fresh: bool = False
@@ -162,8 +162,11 @@ class Analyzer:
                       "call_sites_library": 0, "call_sites_unknown": 0}
         self.unknown_calls: Dict[str, int] = {}
 
-    def analyze(self, func: FunctionInfo, self_class: Optional[ClassInfo] = None, depth: int = 0) -> "FuncAnalysis":
+    def analyze(self, func: FunctionInfo, self_class: Optional[ClassInfo] = None, depth: int = 0,
+                param_types: Optional[Dict[str, str]] = None) -> "FuncAnalysis":
         fa = FuncAnalysis(self, func, self_class or func.cls, depth)
+        if param_types:
+            fa.param_types.update(param_types)
         fa.run()
         self.stats["functions_analysed"] += 1
         return fa
@@ -182,7 +185,7 @@ class Analyzer:
             s = Summary(func)
             for ev in fa.events:
                 if is_P(ev.obj):
-                    s.mutations.append((ev.obj[1], ev.path(), ev.describe(), (func.qualname,) + ev.chain))
+                    s.mutations.append((ev.obj[1], ev.obj[2], ev.kind, ev.fieldname, (func.qualname,) + ev.chain))
                     for v in fa.closure(ev.value):
                         if is_P(v) and v[1] != ev.obj[1]:
                             s.stores.add((ev.obj[1], v[1]))
@@ -355,6 +358,10 @@ class FuncAnalysis:
             t = s.target
             if isinstance(t, ast.Name):
                 cur = env.get(t.id, frozenset())
+                d = self._dunder_aug(s, type(s.op), cur, val)
+                if d is not None:
+                    env[t.id] = d
+                    return env
                 for o in cur:
                     self.event(o, "aug-name", None, s, value=val)
                     self.store_into(o, self.elements(val) | val)
@@ -564,12 +571,27 @@ class FuncAnalysis:
             return frozenset([self.alloc(e, "list", cont)])
         if isinstance(e, ast.BinOp):
             l, r = self.eval(e.left, env), self.eval(e.right, env)
+            d = self._dunder_binop(e, type(e.op), l, r)
+            if d is not None:
+                return d
             cont = self.elements(l) | self.elements(r)
             if not cont:
                 return frozenset()
             return frozenset([self.alloc(e, "binop", cont)])
         if isinstance(e, ast.UnaryOp):
             v = self.eval(e.operand, env)
+            if isinstance(e.op, ast.USub):
+                cl = self.receiver_classes(v)
+                if cl:
+                    out: Set[Obj] = set()
+                    hit = False
+                    for c in cl:
+                        m = self.index.find_method(c, "__neg__")
+                        if m is not None:
+                            hit = True
+                            out |= self._apply_summary(m, c, True, v, [], [], {}, e)
+                    if hit:
+                        return frozenset(out)
             cont = self.elements(v)
             return frozenset([self.alloc(e, "unop", cont)]) if cont else frozenset()
         if isinstance(e, ast.BoolOp):
@@ -612,6 +634,55 @@ class FuncAnalysis:
                 self.returned |= set(v)
             return v
         raise AnalysisError(f"alias: unhandled expression {type(e).__name__} at {self.module.relpath}:{getattr(e, 'lineno', 0)}")
+
+    # -- operator syntax on objects of known class ----------------------------------
+    _OPS = {ast.Add: "add", ast.Sub: "sub", ast.Mult: "mul", ast.Div: "truediv", ast.Pow: "pow", ast.MatMult: "matmul",
+            ast.BitOr: "or", ast.BitAnd: "and", ast.BitXor: "xor", ast.Mod: "mod", ast.FloorDiv: "floordiv"}
+
+    def _dunder_binop(self, node, op, l, r) -> Optional[FrozenSet[Obj]]:
+        nm = self._OPS.get(op)
+        if nm is None:
+            return None
+        lc = self.receiver_classes(l)
+        if lc:
+            out: Set[Obj] = set()
+            hit = False
+            for c in lc:
+                m = self.index.find_method(c, f"__{nm}__")
+                if m is not None:
+                    hit = True
+                    out |= self._apply_summary(m, c, True, l, [r], [False], {}, node)
+            if hit:
+                return frozenset(out)
+        rc = self.receiver_classes(r)
+        if rc:
+            out = set()
+            hit = False
+            for c in rc:
+                m = self.index.find_method(c, f"__r{nm}__")
+                if m is not None:
+                    hit = True
+                    out |= self._apply_summary(m, c, True, r, [l], [False], {}, node)
+            if hit:
+                return frozenset(out)
+        return None
+
+    def _dunder_aug(self, node, op, cur, val) -> Optional[FrozenSet[Obj]]:
+        nm = self._OPS.get(op)
+        if nm is None:
+            return None
+        cl = self.receiver_classes(cur)
+        if not cl:
+            return None
+        out: Set[Obj] = set()
+        for c in cl:
+            m = self.index.find_method(c, f"__i{nm}__")
+            if m is None:
+                m = self.index.find_method(c, f"__{nm}__")    # no in-place dunder: x = x + y rebinding
+            if m is None:
+                return None
+            out |= self._apply_summary(m, c, True, cur, [val], [False], {}, node)
+        return frozenset(out)
 
     # -- calls --------------------------------------------------------------------
     def eval_call(self, call: ast.Call, env) -> FrozenSet[Obj]:
@@ -657,7 +728,12 @@ class FuncAnalysis:
                 is_method = True
                 recv = env.get(self.func.params[0], frozenset()) if self.func.params else frozenset()
                 mro = self.index.mro(self.self_class or self.func.cls)
-                after = mro[mro.index(self.func.cls) + 1:] if self.func.cls in mro else []
+                pivot = self.func.cls
+                if base.args:
+                    rp = self.index.resolve_expr(self.module, base.args[0])
+                    if isinstance(rp, ClassInfo):
+                        pivot = rp
+                after = mro[mro.index(pivot) + 1:] if pivot in mro else []
                 for c in after:
                     if mname in c.methods:
                         targets.append((c.methods[mname], self.self_class, True))
@@ -808,9 +884,13 @@ class FuncAnalysis:
         if not s.complete:
             self.complete = False
             self.cuts.append(f"{callee.qualname}@{call.lineno}(incomplete)")
-        for (param, path, descr, chain) in s.mutations:
+        for (param, objpath, kind, fieldname, chain) in s.mutations:
             for o in binding.get(param, ()):
-                self._mutate_through(o, path, call, chain, descr)
+                # the callee writes through the object found at `objpath` below its parameter: map that
+                # object into the caller's heap; writes that land on caller-local objects are not events
+                for t in self._follow(o, objpath):
+                    if is_P(t):
+                        self.event(t, kind, fieldname, call, chain=chain)
         for dst, src in s.stores:
             for o in binding.get(dst, ()):
                 self.store_into(o, self._reach(binding.get(src, ())))
@@ -841,32 +921,6 @@ class FuncAnalysis:
                         nxt |= self.closure([c])
             cur = nxt
         return cur
-
-    def _mutate_through(self, o: Obj, path, call, chain, descr):
-        """callee writes through `path` below its parameter; map onto the caller's object `o`"""
-        if is_P(o):
-            tgt = o
-            for step in path:
-                if step == "*":
-                    break
-                e = extend(tgt, step)
-                if e is None:
-                    # written field is a scalar slot of the object: still a write to the parent object
-                    self.event(tgt, "attr", step, call, chain=chain)
-                    return
-                tgt = e
-            # path already includes the written field; record as a 'call' event on the extended object
-            self.event(tgt, "call", None, call, chain=chain)
-        else:
-            if len(path) <= 1:
-                # direct field/element of a local object: not observable outside unless it aliases, handled by heap
-                if path:
-                    return
-                return
-            # deep write below a local object: everything P-reachable from it may be written
-            for c in self.closure(self.heap.get(o, ())):
-                if is_P(c):
-                    self.event(c, "call", None, call, chain=chain)
 
     def _library_call(self, call, name, argv, kwv, all_args) -> FrozenSet[Obj]:
         if name in EXTERNAL_MUTATORS:
